@@ -151,7 +151,7 @@ FieldOwners(rest, alt, isResize) ==
      (IF rest \cap {"tabs"} # {} THEN {"C18"} ELSE {})
   \cup (IF rest \cap {"saved", "asaved"} # {} THEN {"C17"} ELSE {})
   \cup (IF rest \cap {"other.lines", "other.cols", "other.rows", "other.lim"} # {} THEN {"C16"} ELSE {})
-  \cup (IF isResize /\ rest \cap {"top", "bottom"} # {} THEN {"C05", "C06"} ELSE {})
+  \cup (IF rest \cap {"top", "bottom"} # {} THEN {"C05", "C06"} ELSE {})          \* margins change only through a valid DECSTBM, a height change, DECSTR, RIS
   \cup (IF isResize /\ ~alt /\ rest \cap {"buf.lines", "col", "row", "pw", "buf.cols", "buf.rows"} # {} THEN {"C10"} ELSE {})
   \cup (IF isResize /\ rest \cap {"cols", "rows"} # {} THEN {"C02"} ELSE {})
 (* Components the properties leave free are not compared by equality: the dirty   *)
